@@ -78,7 +78,10 @@ SPEC = {
         "by_name_agrees_with_whole_file", "metadata_is_the_allocation",
         "attribute_fold_later_wins", "accepted_annotations_agree", "declarator_groups_independent",
         "declarator_group_depends_only_on_itself", "front_lists_each_declarator", "agrees_get",
-        "declarator_lands_in_its_own_group"]],
+        "declarator_lands_in_its_own_group",
+        "compile_refuses_buffer_address_off_vulkan", "returned_parameter_set_is_one_of_four",
+        "annotation_without_register_class_rejected", "accepted_without_register_class_has_no_annotation",
+        "cbuffer_members_only_reject", "accepted_member_has_no_register"]],
     "harness": "c06",
     "level_text": "Proof: the allocator model (a fold with two counters) is proved, for every declaration sequence, default group "
                   "and parameter set compile() can build, to hand out per-group index ranges that tile [0,total) in declaration "
@@ -99,14 +102,30 @@ SPEC = {
                   "accepted repeated annotations all ask for the same binding; composed with the driver and allocator theorems: in "
                   "every returned pipeline every declarator of every accepted declaration is bound (iff bindable) in that group or "
                   "else the pipeline's default group, whatever its neighbours say (declarator_lands_in_its_own_group). "
-                  "Tables and 56 statement-level source facts are "
+                  "Wave 5: compile refuses buffer addresses on every target but Vulkan-flavoured HLSL before it reads the module, "
+                  "so whatever it returns was allocated with one of the property's four parameter sets "
+                  "(compile_refuses_buffer_address_off_vulkan, returned_parameter_set_is_one_of_four); a declarator whose "
+                  "declaration's base type has no register class -- which includes an ARRAY typedef of a resource, because the "
+                  "lookup is done on the base type -- is rejected as soon as it carries an annotation, and an accepted "
+                  "declaration over such a base has none (annotation_without_register_class_rejected, "
+                  "accepted_without_register_class_has_no_annotation); the annotations of cbuffer MEMBERS can only reject the "
+                  "block and never touch its binding (cbuffer_members_only_reject, accepted_member_has_no_register). "
+                  "Tables and 58 statement-level source facts are "
                   "re-extracted from the source each run; the allocator model is compared with the real assign_api_bindings on "
                   "generated declaration sequences and the driver model with the real rssl::compile on generated shader files "
                   "(4 target configurations x whole file / every pipeline by name / unknown name / no-pipeline mode), with the "
                   "property's own overlap/gap/order/default-group oracle run on the real slots and on the returned metadata, "
                   "evaluated per declarator (explicit groups of a declarator = the ones written in its declaration's attributes "
                   "and in its own register annotations; a program whose every binding annotation is well formed must not be "
-                  "rejected for its annotations).",
+                  "rejected for its annotations). The generated files also vary how the same declaration is WRITTEN -- const, a "
+                  "typedef of the type, an array typedef, the array length as a constant expression or a named constant, nested "
+                  "and reopened namespaces, declarations after the entry points and after the Pipeline blocks, enums / function "
+                  "prototypes / functions / typedefs between the resources, pipeline names that are prefixes of each other, "
+                  "DefaultBindGroup written first / as an expression / in hexadecimal / through a named constant, mesh + pixel "
+                  "and single-stage graphics pipelines, arrays of 16-1000 elements, groups 6-9 -- and the compile() options "
+                  "(validate_layout_consistency, source_info, defines, a pipeline name in no-pipeline mode, buffer addresses "
+                  "on every target): the oracle demands the slots of the plain spelling and a refusal (InvalidArgs) for a "
+                  "fifth parameter set.",
     "nontrivial": nontrivial,
     "shrink": shrink,
     "rule": "C06.assign requests = (parameter set, default group, declaration sequence) run through the real front end and "
@@ -125,17 +144,23 @@ SPEC = {
             "attribute) rendered to a shader file and compiled by rssl::compile; first the declarator matrix (8 ways the "
             "first declarator / the declaration spells a group x 4 ways a later declarator does, groups equal to / "
             "different from the pipelines' default groups; quick 32 programs, thorough 384), then quick 300 random programs "
-            "(every other one with at least two pipelines), thorough 6000. non-trivial = at least two declarations "
+            "(every other one with at least two pipelines), thorough 6000; the spelling matrix (kind x {const, typedef, array "
+            "typedef, length as expression x3, nested namespace, after the functions, after the pipelines, all together, "
+            "other root definitions in between}: quick 5 kinds = 55 programs, thorough all 20 kinds twice = 440); per "
+            "(program, target) with probability 1/3 a random subset of the options B (buffer addresses whatever the target), "
+            "L, S, D, Q in the target field `<target>+B+L..`. non-trivial = at least two declarations "
             "received a binding (in at least one returned pipeline)",
     "trusted_base": [
         "Lean 4.33 kernel; axioms propext / Classical.choice / Quot.sound only (audited by #print axioms)",
         "tools/translate.py (SlotTables: ObjectType variants, slice_cost arm, is_buffer_address, get_register_type, "
         "AssignBindingsParams::default, compile()'s binding_params, 16 statement facts about process_definition) and "
-        "tools/gens/c06.py (SlotCompile: 40 statement facts about compile / build_pipeline / select_pipeline / the typer's "
+        "tools/gens/c06.py (SlotCompile: 42 statement facts about compile / build_pipeline / select_pipeline / the typer's "
         "explicit group and DefaultBindGroup / typer/src/typer/globals.rs: the per-declarator binding state is created "
         "inside the declarator loop (langSlotFreshPerDeclarator), nobody else assigns a language binding, the annotation "
         "loop, the overrides after it, the whole attribute loop and parse_expr_as_u32 (exact text), the storage-class "
-        "loop, the cbuffer path / both exporters' analyse_bindings, register_binding, inline block, Metal "
+        "loop, the cbuffer path incl. the annotation loop of its members (cbufferMemberLoopShape), "
+        "binding_params / build_pipeline read no option but the target and support_buffer_address "
+        "(optionsNeverReachBinding) / both exporters' analyse_bindings, register_binding, inline block, Metal "
         "group limit and sort) -- re-run on /repo's working tree every time; the facts are regular expressions or exact "
         "comparisons over the comment-stripped, whitespace-normalised source, reviewed by hand",
         "hand-written Model/Slots.lean mirrors process_definition, Model/SlotsCompile.lean mirrors compile / "
@@ -152,7 +177,10 @@ SPEC = {
         "harness/src/c06/e2e.rs renders the request to source text (decl_attrs / own_anns / normalise); Driver/C06.lean "
         "reads the same request into attributes, storage keywords and per-declarator annotations on its own "
         "(declAttrs / ownAnns / groupEntries) and runs the front model on them; the two readings are checked against "
-        "each other only by the run",
+        "each other only by the run; the driver hands the front model a base type without register class for an "
+        "array-typedef declaration that carries an annotation (Entry.annBase: the declaration is then rejected at that "
+        "annotation, annotation_without_register_class_rejected) and answers err:invalid-args before reading the "
+        "declarations exactly when the model's compile would (same test)",
     ],
     "assumptions": [
         "u32 arithmetic is modelled by Nat: statements apply while every group's running total stays below 2^32",
@@ -165,6 +193,15 @@ SPEC = {
         "argument expressions is the constant evaluator's business (C12/C13)",
         "which of two explicit groups on one declarator wins (attribute vs register space, earlier vs later attribute) is "
         "not fixed by the property: the oracle accepts either, the model and the source facts pin what the code does",
+        "covered by the correspondence run and its oracle only (no theorem; the typed declaration the model starts from "
+        "is the same, turning the spelling into it is parse_type_for_usage / parse_declarator / the constant evaluator / "
+        "the parser, which C06 does not transcribe): `const`, typedef'd object types and array typedefs without "
+        "annotation, array lengths written as constant expressions or named constants, nested / reopened namespaces, the "
+        "position of a declaration relative to functions and Pipeline blocks, enums / prototypes / functions / typedefs "
+        "between the resources (the model sees one unbound root definition), the spelling and position of "
+        "DefaultBindGroup, mesh + pixel and single-stage graphics pipelines, the options validate_layout_consistency / source_info / defines and a "
+        "pipeline name given in no-pipeline mode (the driver maps it to no-pipeline mode; source fact "
+        "optionsNeverReachBinding and nameChecksAfterTheLoop)",
         "unsized arrays (excluded by the property), two-dimensional arrays and struct-typed globals holding resources "
         "(outside the property's quantifier) receive no slot: modelled as such, not judged by the oracle",
     ],
